@@ -6,6 +6,7 @@ import PjVerif.Drive.Dump
 import PjVerif.Drive.Query
 import PjVerif.Drive.Clone
 import PjVerif.Drive.CritPath
+import PjVerif.Drive.Csv
 open Lean Pj.Drive
 
 def dispatch (j : Json) : Json :=
@@ -17,6 +18,8 @@ def dispatch (j : Json) : Json :=
   | "query" => runQuery j
   | "clone" => runClone j
   | "cp" => runCp j
+  | "csvtext" => runCsvText j
+  | "csvrec" => runCsvRec j
   | f => mkObj [("id", fld j "id"), ("error", .str s!"unknown family {f}")]
 
 def main : IO Unit := do
